@@ -93,6 +93,24 @@ def gen_history(rng, nops, long_params):
     return lines
 
 
+def gen_many_modules(rng, n):
+    """Slice boundary: n tiny modules (each with its own long identifiers), one start-up, one edit of
+    one module, then the query sweep. NUM_MODULE_MARKED_PER_SLICE = 100 is the interesting n."""
+    mods = {}
+    for i in range(n):
+        name = f"m.Mod{i:03d}"
+        mods[name] = (f"// module number {i:03d} has a long comment\n"
+                      f"class TheClassOfModuleNumber{i:03d}(val theFieldOfModuleNumber{i:03d}: int) {{}}\n")
+    lines = ["reset", "new " + " ".join(f"{m} {hexs(t)}" for m, t in sorted(mods.items())), "q"]
+    victim = rng.pick(sorted(mods))
+    lines.append(f"up {victim} {hexs(mods[victim] + 'class AnotherClassInThatModule {}' + chr(10))}")
+    lines.append("q")
+    if rng.chance(1, 2):
+        lines.append(f"rm {rng.pick(sorted(mods))}")
+        lines.append("q")
+    return lines
+
+
 def model_lines(lines, impl):
     out = []
     for l, a in zip(lines, impl):
@@ -242,6 +260,12 @@ def run(ctx):
         long_params = (not f2_open) or (done % 10 == 9)
         lines = gen_history(r, r.range(3, nops), long_params)
         handle(lines, long_params, f"generated seed={ctx.seed} #{done}")
+        done += 1
+    # slice-boundary stream: around NUM_MODULE_MARKED_PER_SLICE modules
+    for n in ([100, 101] if ctx.quick else [1, 99, 100, 101, 102, 150, 201]):
+        if ctx.violations:
+            break
+        handle(gen_many_modules(rng.fork(), n), True, f"many-modules n={n}")
         done += 1
     ctx.cov.update({
         "evaluations": done, "distinct_nontrivial": nontrivial,
